@@ -895,9 +895,18 @@ func (s *Sim) onBrokerPublish(sl *Slot, rp *eng.RxPacket) {
 		if other := sl.inflight[p.PacketID]; other != nil && other != o {
 			m.flag("C10/packet-id-in-use", attrs, "slot %d: packet id %d assigned to %s while %s still uses it", sl.Idx, p.PacketID, msg.ID, other.M.ID)
 		}
+		if strings.HasPrefix(exp.Rule, "C09/not-resent") {
+			sl.resumePIDs[p.PacketID] = true
+		}
 		if !o.Sent || exp.Dup != 1 {
 			// first transmission on this connection counts against Receive Maximum
 			if sl.RecvMax > 0 && len(sl.inflight)+1 > int(sl.RecvMax) && sl.inflight[p.PacketID] == nil && exp.Dup != 1 {
+				// is anything that the broker (re)sent right after the CONNACK of a resumed session still unacknowledged?
+				resume := sl.resumePIDs[p.PacketID]
+				for id := range sl.inflight {
+					resume = resume || sl.resumePIDs[id]
+				}
+				attrs["resume_burst_unacknowledged"] = fmt.Sprint(resume)
 				m.flag("C11/receive-maximum-exceeded", attrs, "slot %d (%s): %d unacknowledged QoS>0 PUBLISH in transit exceeds client's Receive Maximum %d", sl.Idx, sl.ClientID, len(sl.inflight)+1, sl.RecvMax)
 			}
 		}
